@@ -9,6 +9,7 @@ import Mingus.Model.Note
 import Mingus.Model.Float
 import Mingus.Model.Machines
 import Mingus.Model.Alias
+import Mingus.Model.Midi
 /- Line-protocol dispatch: function name + decoded arguments → observation. -/
 namespace Mingus
 open Val
@@ -267,7 +268,44 @@ def dispatchAlias : String → List Val → Option Val
       some (toVal ((List.range o.inst.length).map fun i => o.read i))
   | _, _ => none
 
+namespace MidiDec
+open Midi Containers
+def note : Val → Option Note
+  | .list [.str nm, .int o, .int ch, .int vel] => some ⟨nm, o, ch, vel⟩
+  | _ => Option.none
+def notes : Val → Option (List Note)
+  | .list l => l.mapM note
+  | .nil => some []
+  | _ => Option.none
+def entry : Val → Option MEntry
+  | .list [v, ns] => do let q ← ratOf v; let l ← notes ns; pure ⟨q, l⟩
+  | _ => Option.none
+def bar : Val → Option MBar
+  | .list [.str k, .int c, .int u, .list es] => do let l ← es.mapM entry; pure ⟨k, c, u, l⟩
+  | _ => Option.none
+def track : Val → Option MTrack
+  | .list [.str nm, i, .list bs] => do
+      let l ← bs.mapM bar
+      let ins ← (match i with | .nil => some Option.none | .int k => some (some k) | _ => Option.none)
+      pure ⟨nm, ins, l⟩
+  | _ => Option.none
+end MidiDec
+
+def dispatchMidi : String → List Val → Option Val
+  | "midi.vlq", [int n] => if n < 0 then Option.none else some (toVal (Midi.toVarbyte n.toNat))
+  | "midi.tick", [v] => (ratOf v).map fun q => toVal (Midi.tickOf q)
+  | "midi.write", [str kind, payload, int bpm, int rep] =>
+      if kind = lit "note" then (MidiDec.note payload).map fun n => toVal (Midi.writeNote n bpm rep)
+      else if kind = lit "nc" then (MidiDec.notes payload).map fun n => toVal (Midi.writeNC n bpm rep)
+      else if kind = lit "bar" then (MidiDec.bar payload).map fun b => toVal (Midi.writeBar b bpm rep)
+      else if kind = lit "track" then (MidiDec.track payload).map fun t => toVal (Midi.writeTrack t bpm rep)
+      else if kind = lit "composition" then
+        (match payload with | .list l => l.mapM MidiDec.track | _ => Option.none).map fun ts => toVal (Midi.writeComposition ts bpm rep)
+      else Option.none
+  | _, _ => none
+
 def dispatch (fn : String) (args : List Val) : Option Val :=
+  (dispatchMidi fn args).orElse fun _ =>
   (dispatchAlias fn args).orElse fun _ =>
   (dispatchMachines fn args).orElse fun _ =>
   (dispatchFloat fn args).orElse fun _ =>
